@@ -29,10 +29,16 @@ Inductive op :=
 | NotifyProbe (p : N)            (* Notify whose datagram is looked up by its counter while the connection
                                     writer is being handed it (the notification is the most recent entry of
                                     the cache, so this lookup changes nothing) *)
-| Burst (ks : list N).           (* overlapping Reply / result / Write calls of kinds ks from as many goroutines:
+| Burst (ks : list N)            (* overlapping Reply / result / Write calls of kinds ks from as many goroutines:
                                     each takes its counter in one atomic step (atomic.AddUint64), so every
                                     interleaving hands out the same set of counters; the runner pairs the
                                     counters, sorted, with the kinds in the order given *)
+| DupBurst (h : N) (ks : list N). (* a Request h overlapped by the calls of Burst ks.  When an identical request is
+                                    unanswered (the only case the runner overlaps) the request is withheld: it
+                                    takes no counter and changes nothing, so it commutes with every call of the
+                                    burst and the sequential composition below is every interleaving; otherwise
+                                    the runner issues the request first and the burst afterwards, which is the
+                                    composition literally *)
 
 Inductive obs :=
 | Written (c k p : N)            (* datagram handed to the connection writer *)
@@ -124,6 +130,16 @@ Definition step (s : st) (o : op) : st * list obs :=
   | Burst ks =>
       ({| ctr := burst_ctr (ctr s) ks; reqs := reqs s; lru := lru s; space := space s |},
        burst_obs (ctr s) ks)
+  | DupBurst h ks =>
+      match find_hash h (reqs s) with
+      | Some c =>
+          ({| ctr := burst_ctr (ctr s) ks; reqs := reqs s; lru := lru s; space := space s |},
+           RetCtr c :: burst_obs (ctr s) ks)
+      | None =>
+          let c := N.succ (ctr s) in
+          ({| ctr := burst_ctr c ks; reqs := add_req c h (reqs s); lru := lru s; space := space s |},
+           Written c K_REQUEST h :: RetCtr c :: burst_obs c ks)
+      end
   end.
 
 (* run a history, collecting the trace *)
@@ -147,6 +163,7 @@ Definition parse_op (l : list Z) : option op :=
   | [4; c] => Some (Lookup (Nz c))
   | [6; p] => Some (NotifyProbe (Nz p))
   | 5 :: ks => Some (Burst (map Nz ks))
+  | 7 :: h :: ks => Some (DupBurst (Nz h) (map Nz ks))
   | _ => None
   end.
 
